@@ -316,7 +316,8 @@ def run_jobs(jobs, wd, name="job", shards=None, timeout=3600):
         for ji, s in part:
             if cur is None or cur[0] != ji:
                 cur = (ji, {"cfg": jobs[ji]["cfg"], "files": jobs[ji].get("files", {}),
-                            "opts": jobs[ji].get("opts", {}), "scripts": [], "tag": jobs[ji].get("tag", ji)})
+                            "opts": jobs[ji].get("opts", {}), "scripts": [], "tag": jobs[ji].get("tag", ji),
+                            "params": jobs[ji].get("params", {"none": 0})})
                 pj.append(cur[1])
             cur[1]["scripts"].append(s)
         jf = os.path.join(wd, "%s.%d.json" % (name, i))
@@ -359,3 +360,71 @@ def write_replay(pid, name, obj):
     with open(p, "w") as f:
         json.dump(obj, f, indent=1, ensure_ascii=True)
     return p
+
+
+# ---------------------------------------------------------------- trace validation (binding C)
+TRACE_TEMPLATE = r"""---- MODULE Trace_%(mon)s ----
+EXTENDS %(mon)s, Json, IOUtils
+Rec == ndJsonDeserialize(IOEnv.TRACE)
+VARIABLES l, mon, cur
+Init == l = 1 /\ mon = [err |-> "idle"] /\ cur = <<0, 0>>
+StepMon(m, r) ==
+  IF m.err # "" THEN m
+  ELSE CASE r.e = "t" -> IF r.n = 1 THEN MonTick(m, r.out, r.idle, r.cb)
+                          ELSE MonSilent(m, r.n, r.idle, r.cb)
+         [] r.e \in {"d", "u", "r", "p", "fk"} -> MonIn(m, r)
+         [] r.e = "panic" -> [m EXCEPT !.err = "panic in the code under test: " \o r.loc]
+         [] r.e = "error" -> [m EXCEPT !.err = "error from the code under test: " \o r.msg]
+         [] OTHER -> m
+Next == /\ l <= Len(Rec) /\ l' = l + 1
+        /\ LET r == Rec[l] IN
+           IF r.e = "reset" THEN mon' = MonInit(r.params) /\ cur' = <<r.job, r.script>>
+           ELSE IF r.e = "end" THEN mon' = [err |-> "idle"] /\ UNCHANGED cur
+           ELSE mon' = StepMon(mon, r) /\ UNCHANGED cur
+\* prints one line per script whose trace the property monitor rejects
+ErrPrint == (mon.err = "" /\ mon'.err \notin {"", "idle"}) =>
+              PrintT(<<"VERR", ToJson([job |-> cur[1], script |-> cur[2], line |-> l, err |-> mon'.err])>>)
+Accepted == TLCGet("stats").diameter - 1 = Len(Rec)
+====
+"""
+TRACE_CFG = """INIT Init
+NEXT Next
+ACTION_CONSTRAINT ErrPrint
+POSTCONDITION Accepted
+CHECK_DEADLOCK FALSE
+"""
+
+
+def validate_trace(monitor, trace_file, wd, timeout=1800):
+    """Runs the L2 monitor `monitor` (a module in spec/) over a recorded ndjson trace with TLC.
+    Returns (n_lines, errs) where errs = list of {job, script, line, err}.
+    Raises ToolError if TLC did not consume the whole trace."""
+    mod = "Trace_" + monitor
+    with open(os.path.join(wd, mod + ".tla"), "w") as f:
+        f.write(TRACE_TEMPLATE % {"mon": monitor})
+    with open(os.path.join(wd, mod + ".cfg"), "w") as f:
+        f.write(TRACE_CFG)
+    nlines = sum(1 for _ in open(trace_file))
+    outp = os.path.join(wd, mod + "." + os.path.basename(trace_file) + ".out")
+    r = run_tlc(wd, mod, workers=1, timeout=timeout, heap="4g", deque=True,
+                env_extra={"TRACE": os.path.abspath(trace_file)}, stdout_path=outp)
+    errs_f = outp + ".verr"
+    extract_prints(outp, "VERR", errs_f)
+    errs = [json.loads(x) for x in open(errs_f) if x.strip()]
+    txt = open(outp, errors="replace").read()
+    if r["rc"] != 0 or "Model checking completed. No error" not in txt:
+        raise ToolError("trace validation with %s did not accept/consume %s (rc=%s): %s" %
+                        (monitor, trace_file, r["rc"], r["error"] or txt[-1500:]))
+    return nlines, errs
+
+
+def concat_traces(outs, dest):
+    """Concatenates the per-shard ndjson outputs of run_jobs into one trace file."""
+    with open(dest, "w") as g:
+        for rc, jf, of, pj, so in outs:
+            if rc != 0:
+                raise ToolError("harness run failed rc=%s: %s" % (rc, (so or "")[-2000:]))
+            with open(of) as f:
+                for line in f:
+                    g.write(line)
+    return dest
